@@ -4,13 +4,14 @@
 
   Mirrors (the code that exists in /repo now, after the `fix:` commits):
     src/Array.c   Array_Get/Set/Mem/Rem/Push/Push_At/Pop/Pop_At/Resize/Concat/Assign
+                  (also with elements that are themselves Array / List / Table objects: `Nest`)
     src/List.c    List_At, List_Get/Set/Mem/Rem/Push/Push_At/Pop/Pop_At/Resize/Concat/Assign
     src/Tuple.c   Tuple_Get/Set/Mem/Rem/Push/Push_At/Pop/Pop_At/Resize/Concat/Assign  (heap and stack tuples)
     src/Table.c   Table_Get/Set/Mem/Rem/Resize/Assign, Table_Ideal_Size             (contents + nslots)
     src/Tree.c    Tree_Get/Set/Mem/Rem/Resize/Assign
     src/String.c  String_Mem/Rem/Resize/Concat/Assign/Format_To                      (heap, stack and static strings)
     src/Iter.c    Range_Len/Get (fix 81e7452: bounds test against the length first), Slice_Arg/slice_stack/Slice_Get, Zip_Get
-    src/Type.c    cast, Type_Of (NULL), Type_Method_At_Offset (ClassError)
+    src/Type.c    cast, Type_Of (NULL, magic number), Type_Method_At_Offset (ClassError)
     src/Alloc.c   dealloc (ResourceError)
     src/Show.c    print_to_with (FormatError; partial output)
     src/Num.c, src/Assign.c, src/Cmp.c   c_int, c_str, assign, cmp/eq on Int / String / a type without instances
@@ -23,8 +24,14 @@
   every signed operation of theirs is written out with an explicit overflow test (`isI64`, outcome `ub`), so that the
   absence of overflow is something the theorems prove, not something the model assumes.
 
+  The dispatcher in front of every class method is not restated here: `Type_Of` (NULL, freed or foreign magic number) is
+  `Cello.Dispatch.typeOfW` (engine C08's model of src/Type.c, imported read-only), and "the type implements the member" is read
+  from `CelloGen.Disp.declared`, the declaration matrix regenerated from the `Cello(T, Instance(…), …)` texts on every run.
+
   Core Lean only (the driver links against this file).
 -/
+import Cello.Dispatch
+import CelloGen.Disp
 namespace Cello.Fail
 
 /-- the Cello exception objects an operation can raise -/
@@ -1002,6 +1009,203 @@ structure Zp where
   b : Nat
 deriving DecidableEq, Repr, Inhabited
 
+/-! ### containers whose elements are containers  (Array / List of Array / List / Table of Int)
+
+  `Array_Set`, `Array_Push`, `List_Push`, … hand the slot to `assign(slot, obj)`, which for a container slot is
+  `Array_Assign` / `List_Assign` / `Table_Assign`: the slot is cleared and re-typed *before* the source is looked at
+  (`Arr.assign`, `Lst.assign`, `Tab.assign` above — the known findings assign-clears / foreach-noniter).  So a wrong-typed
+  `set` on a valid index raises (or crashes) and leaves the *element* emptied. -/
+
+/-- an element that is itself a container (of `Int`s; a Table from `Int` to `Int`) -/
+inductive Inner where
+  | arr (a : Arr)
+  | lst (l : Lst)
+  | tab (t : Tab)
+deriving DecidableEq, Repr, Inhabited
+
+/-- element type of a nested container -/
+inductive IK where
+  | arr | lst | tab
+deriving DecidableEq, Repr, Inhabited
+
+def IK.name : IK → String
+  | .arr => "Array" | .lst => "List" | .tab => "Table"
+
+def Inner.kind : Inner → IK
+  | .arr _ => .arr | .lst _ => .lst | .tab _ => .tab
+
+def Inner.len : Inner → Nat
+  | .arr a => a.items.length | .lst l => l.items.length | .tab t => t.items.length
+
+/-- a slot as `Array_Alloc` / `List_Alloc` leave it: all bytes zero behind a fresh header (no items, no storage; the type word
+    of the zeroed struct is NULL — written `ref` here, it is overwritten by the `assign` that always follows) -/
+def Inner.zero : IK → Inner
+  | .arr => .arr { ty := .ref, items := [], nslots := 0 }
+  | .lst => .lst { ty := .ref, items := [] }
+  | .tab => .tab { kty := .ref, vty := .ref, items := [], nslots := 0 }
+
+/-- what is offered to `assign(slot, src)`: a scalar object / NULL, or a container object -/
+inductive NSrc where
+  | val (v : Val)
+  | cont (c : Inner)
+deriving DecidableEq, Repr, Inhabited
+
+/-- `assign(slot, src)` for a container slot = `Array_Assign` / `List_Assign` / `Table_Assign`: from a container of the same kind
+    the slot is cleared, re-typed and filled with copies (`nslots` as those functions leave it); from anything else the models of
+    the failing assigns above apply — the slot is returned **also on failure**, cleared.  Sources of another container kind are
+    not modelled (`ub`; the histories do not use them). -/
+def Inner.assign (slot : Inner) (src : NSrc) : Inner × Res :=
+  match slot, src with
+  | .arr a, .val v => let (a', r) := a.assign v; (.arr a', r)
+  | .lst l, .val v => let (l', r) := l.assign v; (.lst l', r)
+  | .tab t, .val v => let (t', r) := t.assign v; (.tab t', r)
+  | .arr _, .cont (.arr b) => (.arr { ty := b.ty, items := b.items, nslots := b.items.length }, .ok .unit)
+  | .lst _, .cont (.lst b) => (.lst { ty := b.ty, items := b.items }, .ok .unit)
+  | .tab _, .cont (.tab b) =>
+    (.tab { kty := b.kty, vty := b.vty, items := b.items, nslots := idealSize b.items.length }, .ok .unit)
+  | s, _ => (s, .ub)
+
+/-- outer container kind -/
+inductive OKind where
+  | arr | lst
+deriving DecidableEq, Repr, Inhabited
+
+/-- an Array or List whose declared element type is Array / List / Table -/
+structure Nest where
+  outer : OKind
+  ek : IK
+  items : List Inner
+  nslots : Nat            -- capacity of an outer Array (0 for a List)
+deriving DecidableEq, Repr, Inhabited
+
+/-- operations on a nested container (the source of `set` / `push` may be a container object) -/
+inductive NOp where
+  | get (k : Val)
+  | set (k : Val) (src : NSrc)
+  | push (src : NSrc)
+  | pushAt (src : NSrc) (k : Val)
+  | pop
+  | popAt (k : Val)
+  | resize (n : Nat)
+  | len
+deriving DecidableEq, Repr, Inhabited
+
+/-- `Array_Set` / `List_Set`: index first (nothing touched on a bad index), then `assign(slot, val)` — whatever `assign` did to
+    the slot stays, also when it raises -/
+def Nest.set (n : Nest) (k : Val) (src : NSrc) : Nest × Res :=
+  match resolve n.items.length k with
+  | .ok i =>
+    let (e', r) := (n.items.getD i (Inner.zero n.ek)).assign src
+    ({ n with items := n.items.set i e' }, r)
+  | .raised e => (n, .raised e)
+  | .ub => (n, .ub)
+
+/-- `Array_Push`: `nitems++`, reserve, zeroed slot, **then** `assign` (F15: the slot stays when `assign` fails).
+    `List_Push`: the node is allocated and assigned **before** it is linked: a failing `assign` leaves the list unchanged. -/
+def Nest.push (n : Nest) (src : NSrc) : Nest × Res :=
+  let (e', r) := (Inner.zero n.ek).assign src
+  match n.outer with
+  | .arr => ({ n with items := n.items ++ [e'], nslots := reserveMore (n.items.length + 1) n.nslots }, r)
+  | .lst =>
+    match r with
+    | .ok _ => ({ n with items := n.items ++ [e'] }, r)
+    | _ => (n, r)
+
+/-- `Array_Push_At` (index check, grow, shift, zeroed slot, `assign`) / `List_Push_At` (index 0 or an existing position, node
+    allocated and assigned, then linked) -/
+def Nest.pushAt (n : Nest) (src : NSrc) (k : Val) : Nest × Res :=
+  match cInt k with
+  | .ok kb =>
+    match n.outer with
+    | .arr =>
+      let i := normIdxPush n.items.length kb
+      if inBoundsIncl n.items.length i then
+        let (e', r) := (Inner.zero n.ek).assign src
+        ({ n with items := insertAt n.items i.toNat e', nslots := reserveMore (n.items.length + 1) n.nslots }, r)
+      else (n, .raised .IndexOutOfBoundsError)
+    | .lst =>
+      let pos : R Nat := if kb = 0 then .ok 0 else resolveB n.items.length kb
+      match pos with
+      | .ok i =>
+        let (e', r) := (Inner.zero n.ek).assign src
+        (match r with
+         | .ok _ => ({ n with items := insertAt n.items i e' }, r)
+         | _ => (n, r))
+      | .raised e => (n, .raised e)
+      | .ub => (n, .ub)
+  | .raised e => (n, .raised e)
+  | .ub => (n, .ub)
+
+def Nest.step (n : Nest) : NOp → Nest × Res
+  | .get k =>
+    match resolve n.items.length k with
+    | .ok i => (n, .ok (.nat (n.items.getD i (Inner.zero n.ek)).len))     -- the element; observed through its length
+    | .raised e => (n, .raised e)
+    | .ub => (n, .ub)
+  | .set k src => n.set k src
+  | .push src => n.push src
+  | .pushAt src k => n.pushAt src k
+  | .pop =>
+    if n.items.length = 0 then (n, .raised .IndexOutOfBoundsError)
+    else ({ n with items := n.items.dropLast,
+                   nslots := match n.outer with | .arr => reserveLess (n.items.length - 1) n.nslots | .lst => n.nslots }, .ok .unit)
+  | .popAt k =>
+    match resolve n.items.length k with
+    | .ok i => ({ n with items := removeAt n.items i,
+                         nslots := match n.outer with | .arr => reserveLess (n.items.length - 1) n.nslots | .lst => n.nslots }, .ok .unit)
+    | .raised e => (n, .raised e)
+    | .ub => (n, .ub)
+  | .resize m =>
+    match n.outer with
+    | .arr => if m = 0 then ({ n with items := [], nslots := 0 }, .ok .unit)
+              else ({ n with items := n.items.take m, nslots := m }, .ok .unit)
+    | .lst => if m = 0 then ({ n with items := [] }, .ok .unit)
+              else if m ≤ n.items.length then ({ n with items := n.items.take m }, .ok .unit)
+              else (n, .ub)                        -- growing creates zeroed containers: not modelled
+  | .len => (n, .ok (.nat n.items.length))
+
+/-! ### the dispatcher in front of every class method  (src/Type.c: Type_Of, Type_Method_At_Offset) -/
+
+/-- the member of the class an operation is dispatched through: `method(self, Class, member, …)` with the member's position in
+    `struct Class` (Get: get set mem rem; Push: push pop push_at pop_at; Concat: concat append; `print_to` writes its first
+    segment through `format_to`).  `assign` has a fallback for types without `Assign` and is not a pure dispatch. -/
+def Op.member : Op → Option (String × Nat)
+  | .get _ => some ("Get", 0)
+  | .set _ _ => some ("Get", 1)
+  | .mem _ => some ("Get", 2)
+  | .rem _ => some ("Get", 3)
+  | .push _ => some ("Push", 0)
+  | .pop => some ("Push", 1)
+  | .pushAt _ _ => some ("Push", 2)
+  | .popAt _ => some ("Push", 3)
+  | .resize _ => some ("Resize", 0)
+  | .len => some ("Len", 0)
+  | .concat _ => some ("Concat", 0)
+  | .append _ => some ("Concat", 1)
+  | .print _ (.lit _ :: _) _ => some ("Format", 0)
+  | _ => none
+
+/-- does type `ty` declare a non-NULL member `k` of class `cls`?  Read from the declaration matrix generated from the sources;
+    a type that is not in it (the probe type `Plain`, declared with no instances) declares nothing. -/
+def declares (ty cls : String) (k : Nat) : Bool :=
+  match CelloGen.Disp.declared.lookup ty with
+  | some cs => (match cs.lookup cls with | some ms => ms.getD k false | none => false)
+  | none => false
+
+/-- `Type_Of(self)` as far as failure goes: NULL, a freed object (dead magic number) and a pointer that does not carry Cello's
+    magic number raise ValueError before anything is looked at (`Cello.Dispatch.typeOfW`, whatever the world of types) -/
+def headerExc (self : Cello.Dispatch.Self) : Option Exc :=
+  match (Cello.Dispatch.typeOfW default self).2 with
+  | .raised _ => some .ValueError
+  | _ => none
+
+/-- `method_at_offset(self, Class, member)`: `Type_Of(self)`, then `Type_Method_At_Offset` — ClassError when the type does not
+    implement the class or leaves the member NULL; `none`: the method is entered -/
+def dispatchExc (self : Cello.Dispatch.Self) (ty : String) (m : String × Nat) : Option Exc :=
+  match headerExc self with
+  | some e => some e
+  | none => if declares ty m.1 m.2 then none else some .ClassError
+
 /-! ### objects and the store -/
 
 inductive Obj where
@@ -1015,12 +1219,21 @@ inductive Obj where
   | slc (s : Slc)
   | zip (z : Zp)
   | scalar (alloc : AllocK) (v : Val)     -- an `Int` or `Plain` object on its own
+  | nest (n : Nest)                       -- an Array / List whose elements are containers
+  | junk (m : Cello.Dispatch.Magic)       -- a pointer whose header does not carry a good magic number (`dead`: a freed object)
 deriving DecidableEq, Repr, Inhabited
 
 def Obj.typeName : Obj → String
   | .arr _ => "Array" | .lst _ => "List" | .tup _ => "Tuple" | .tab _ => "Table" | .tre _ => "Tree"
   | .str _ => "String" | .rng _ => "Range" | .slc _ => "Slice" | .zip _ => "Zip"
   | .scalar _ v => match v.ty? with | some t => t.name | none => "?"
+  | .nest n => match n.outer with | .arr => "Array" | .lst => "List"
+  | .junk _ => "?"
+
+/-- what `Type_Of` sees in the object's header -/
+def Obj.self : Obj → Cello.Dispatch.Self
+  | .junk m => .obj m 0
+  | _ => .obj .good 0
 
 /-- `header(self)->alloc` of the object itself -/
 def Obj.allocK : Obj → AllocK
@@ -1062,6 +1275,26 @@ def Obj.stepLocal (o : Obj) (op : Op) : Obj × Res :=
     | _ => (o, .raised .ClassError)           -- Int / Plain implement none of Get, Push, Resize, Len, Concat
   | .slc _ => (o, .ub)                        -- handled by `step` (needs the store)
   | .zip _ => (o, .ub)
+  | .nest n =>
+    -- the operations whose source is a scalar object or NULL; container sources come through `stepN`
+    (match op with
+     | .get k => let (n', r) := n.step (.get k); (.nest n', r)
+     | .set k v => let (n', r) := n.step (.set k (.val v)); (.nest n', r)
+     | .push v => let (n', r) := n.step (.push (.val v)); (.nest n', r)
+     | .append v => let (n', r) := n.step (.push (.val v)); (.nest n', r)
+     | .pushAt v k => let (n', r) := n.step (.pushAt (.val v) k); (.nest n', r)
+     | .pop => let (n', r) := n.step .pop; (.nest n', r)
+     | .popAt k => let (n', r) := n.step (.popAt k); (.nest n', r)
+     | .resize m => let (n', r) := n.step (.resize m); (.nest n', r)
+     | .len => let (n', r) := n.step .len; (.nest n', r)
+     | .print _ [] _ => (o, .ok (.nat 0))
+     | .print _ (.lit _ :: _) _ => (o, .raised .ClassError)     -- no `Format`
+     | _ => (o, .ub))                          -- mem / rem / concat / assign on nested containers: not modelled
+  | .junk m =>
+    -- every class method, `assign`, `print_to` starts with `Type_Of(self)`
+    (match headerExc (.obj m 0) with
+     | some e => (o, .raised e)
+     | none => (o, .ub))
 
 /-- `get(base, key)` for the iterables a view may be built over (Array, List, Tuple); other bases are not modelled -/
 def baseGet (o : Option Obj) (k : Val) : Res :=
@@ -1130,6 +1363,12 @@ def step (σ : Store) (id : Nat) (op : Op) : Store × Res :=
     let (o', r) := if o.isView then viewStep σ o op else o.stepLocal op
     (σ.put id o', r)
 
+/-- one operation on the nested container `id` of the store (sources may be container objects) -/
+def stepN (σ : Store) (id : Nat) (op : NOp) : Store × Res :=
+  match σ.get? id with
+  | some (.nest n) => let (n', r) := n.step op; (σ.put id (.nest n'), r)
+  | _ => (σ, .ub)
+
 /-! ### operations that do not go through a class method -/
 
 /-- `cast(obj, T)` for an object of the store -/
@@ -1145,7 +1384,16 @@ def deallocObj (a : AllocK) : Res :=
   | .heap => .ub
 
 /-- any method call on NULL: `Type_Of(NULL)` raises ValueError before anything else happens -/
-def nullCall : Res := .raised .ValueError
+def nullCall : Res :=
+  match headerExc .null with
+  | some e => .raised e
+  | none => .ub
+
+/-- `type_of` / `cast` / `dealloc` on an object: all three start with `Type_Of(self)` (`cast` and `dealloc` through `instance`) -/
+def headerCall (o : Obj) (r : Res) : Res :=
+  match headerExc o.self with
+  | some e => .raised e
+  | none => r
 
 /-! ### observable view (what `len`, `get` and iteration can see): capacities and scratch values erased -/
 
@@ -1154,6 +1402,7 @@ def Obj.view : Obj → Obj
   | .tab t => .tab { t with nslots := 0 }
   | .rng r => .rng { r with scratch := 0 }
   | .slc s => .slc { s with rng := { s.rng with scratch := 0 } }
+  | .nest n => .nest { n with nslots := 0 }
   | o => o
 
 def Store.view (σ : Store) : Store := σ.map (fun p => (p.1, p.2.view))
